@@ -98,7 +98,7 @@ class Pages(Files):
                 return await self.file_response(
                     filepath, stat_result, if_none_match, if_modified_since
                 )(scope, receive, send)
-            if stat.S_ISDIR(stat_result.st_mode):
+            if stat.S_ISDIR(stat_result.st_mode) and not scope["path"].endswith("/"):
                 url = URL(scope=scope)
                 url = url.replace(scheme="", path=url.path + "/")
                 return await RedirectResponse(url)(scope, receive, send)
